@@ -66,7 +66,7 @@ Fixpoint variants (n : node) {struct n} : list val :=
         | _, _ => []
         end
       | typeSlice =>
-        if String.eqb tn "[]byte" then [VBytes true [] 0; VBytes false [] 0; VBytes false (bytes_of_string "xy") 3]
+        if String.eqb tn "[]byte" then [VBytes true [] 0; VBytes false [] 0; VBytes false (bytes_of_string "xy") 3; VBytes false [] 4]   (* the last: emptied by x = x[:0], capacity kept *)
         else match sl with
              | Some en =>
                let vs := variants en in
